@@ -17,4 +17,6 @@ FLOORS = {"quick": (300, 30), "thorough": (20000, 300)}
 
 
 def run(tier, seed, replay):
+    if replay:
+        FLOORS[tier] = (1, 1)  # a replay re-executes one case
     return cguest.run_check("C11", "c11", tier, seed, replay, resources=True)
